@@ -12,7 +12,7 @@
    regenerated from the source AST on every run (coq/gen/Consts_C03.v).
    Python errors are results: [TypeErr] is the `cannot unpack None` that rodrigues raises when
    unitvec_norm returns None, [ValueErr] the explicit `raise ValueError` of the theta-forms. *)
-From Coq Require Import ZArith.
+From Coq Require Import ZArith List.
 From SM Require Import Base.Ops Base.Lin.
 
 Record thr := {
@@ -275,6 +275,17 @@ Definition trlog2_se2_tw (Tm : M33 T) : V3 T :=
     let b := th / two in
     let a := if eqb O th 0 then 1 else b / tan_ O b in
     (a*tx + b*ty, (- b)*tx + a*ty, th).
+
+(* ---------------- twist.py: Twist3.exp / Twist2.exp, theta a vector, one twist ----------------
+   `SE3([base.trexp(self.S * t) for t in theta])`: element t of theta gives the exponential of the SCALED twist (the twist is
+   not normalised first: for a prismatic twist theta() is 0, the scale factor t multiplies the translational part) *)
+Definition scale6 (t : T) (tw : V6 T) : V6 T :=
+  let '(v0,v1,v2,w0,w1,w2) := tw in (v0*t, v1*t, v2*t, w0*t, w1*t, w2*t).
+Definition scale3 (t : T) (tw : V3 T) : V3 T := let '(v0,v1,w) := tw in (v0*t, v1*t, w*t).
+Definition twist3_exp_elem (tw : V6 T) (t : T) : res (M44 T) := trexp_se3 (scale6 t tw).
+Definition twist2_exp_elem (tw : V3 T) (t : T) : res (M33 T) := trexp2_se2 (scale3 t tw).
+Definition twist3_exp_vec (tw : V6 T) (thetas : list T) : list (res (M44 T)) := List.map (twist3_exp_elem tw) thetas.
+Definition twist2_exp_vec (tw : V3 T) (thetas : list T) : list (res (M33 T)) := List.map (twist2_exp_elem tw) thetas.
 End Model.
 
 Create HintDb c03 discriminated.
